@@ -7,6 +7,8 @@ by the native adapter only (bounded).
 """
 import itertools
 
+import ast
+
 import z3
 
 from pyvc.execu import z3ify
@@ -225,11 +227,66 @@ def build(tier):
                        "observation_space": (lambda ex, st, l: SpaceK("MultiDiscrete", nvec=[2, 3], shape=(2,), start=StartArr([0, 0]))), "device": (lambda ex, st, l: "cpu"),
                        "normalize_images": (lambda ex, st, l: True)},
                requires=[], frame_fields=False, ensures=["onehot_multi(result)"], replay="c15:values")
+    # ---- multi-agent entry points: every agent's observation is prepared with ITS OWN space and results are ordered by agent_ids,
+    # whatever the key order of the dict that is passed in (one contract per key order: given order, reversed, rotated)
+    IDS = ["agent_0", "agent_1", "other_0"]
+    OBS_ = {a: Opaque("obs-of-" + a) for a in IDS}
+    SP_ = {a: Opaque("space-of-" + a) for a in IDS}
+    MA_BASE = "agilerl.algorithms.core.base.MultiAgentRLAlgorithm"
+    for tag, order in (("given-order", IDS), ("reversed", IDS[::-1]), ("rotated", IDS[1:] + IDS[:1]), ("one-absent", [IDS[2], IDS[0]])):
+        def ma_self(ex, st, label):
+            o = Obj(MA_BASE, label="self")
+            o.fields.update(dict(agent_ids=list(IDS), observation_space=dict(SP_), device="cpu", normalize_images=True,
+                                 shared_agent_ids=["agent", "other"], get_homo_id=Fn(model=lambda ex, st, a, k: a[0].rsplit("_", 1)[0], name="get_homo_id")))
+            return o
+        obs_arg = (lambda ex, st, l, order=order: {a: OBS_[a] for a in order})
+
+        def ma_post(res, order=order):
+            want = [a for a in IDS if a in order]
+            ok = isinstance(res, dict) and list(res.keys()) == want and all(res[a] == ("prepared", OBS_[a], SP_[a]) for a in want)
+            return z3.BoolVal(bool(ok))
+
+        def ippo_post(res, order=order):
+            present = [a for a in IDS if a in order]
+            want = {"agent": ("concatenated", [("prepared", OBS_[a], SP_[a]) for a in present if a.startswith("agent")]),
+                    "other": ("concatenated", [("prepared", OBS_[a], SP_[a]) for a in present if a.startswith("other")])}
+            return z3.BoolVal(isinstance(res, dict) and res == want)
+        P.specns[f"ma_post_{tag.replace('-', '_')}"] = ma_post
+        P.specns[f"ippo_post_{tag.replace('-', '_')}"] = ippo_post
+        P.contract(MA_BASE + ".preprocess_observation", variant=tag, params={"self": ma_self, "observation": obs_arg}, requires=[], frame_fields=False,
+                   ensures=[f"ma_post_{tag.replace('-', '_')}(result)"], replay={"adapter": "demos:run", "payload": {"name": "C15b_demo_2"}})
+        P.contract("agilerl.algorithms.ippo.IPPO.preprocess_observation", variant=tag, params={"self": ma_self, "observation": obs_arg}, requires=[], frame_fields=False,
+                   ensures=[f"ippo_post_{tag.replace('-', '_')}(result)"], replay={"adapter": "demos:run", "payload": {"name": "C15b_demo_2"}})
+    ma_pre = lambda ex, st, a, k: ("prepared", k.get("observation", a[0] if a else None), k.get("observation_space", a[1] if len(a) > 1 else None))
+    P.lib[AU + "preprocess_observation"] = ma_pre          # at CALL sites only (the function itself is verified above from its own body)
+    P.lib["agilerl.algorithms.ippo.concatenate_tensors"] = lambda ex, st, a, k: ("concatenated", list(a[0]))
+    P.lib[AU + "concatenate_tensors"] = lambda ex, st, a, k: ("concatenated", list(a[0]))
+    def wiring_eval_mode():
+        """the value / greedy action of ONE observation must not depend on the rest of the batch: every single-agent get_action puts the
+        networks it evaluates into eval mode before the forward pass (BatchNorm in the default image encoders) - AST obligation.
+        RainbowDQN is exempt in training mode (its noisy layers explore through train-mode noise)."""
+        from pyvc import front
+        bad = []
+        for q, nets in (("agilerl.algorithms.dqn.DQN.get_action", ["self.actor"]), ("agilerl.algorithms.cqn.CQN.get_action", ["self.actor"]),
+                        ("agilerl.algorithms.ddpg.DDPG.get_action", ["self.actor"]), ("agilerl.algorithms.td3.TD3.get_action", ["self.actor"]),
+                        ("agilerl.algorithms.ppo.PPO.get_action", ["self.actor", "self.critic"])):
+            owner, m, fn = front.find_function(q)
+            src = ast.unparse(fn)
+            fwd = [src.find(pat) for pat in ("self.actor(", "self._get_action(", "self._get_action_and_values(") if src.find(pat) >= 0]
+            if not fwd:
+                bad.append(f"{q}: forward call not found")
+                continue
+            for n in nets:
+                i = src.find(n + ".eval()")
+                if i < 0 or i > min(fwd):
+                    bad.append(f"{q}: `{n}.eval()` does not precede the forward pass")
+        return not bad, "actor (and critic) switched to eval mode before the forward pass of every single-agent get_action" if not bad else "; ".join(bad)
+    P.syntactic.append(("get_action.eval-mode-before-forward", wiring_eval_mode))
     P.native.append(dict(name="preprocess_values", adapter="c15:values", bound="Box rank 0-3, Discrete n in 1..4, MultiDiscrete, MultiBinary, Dict/Tuple; "
                          "unbatched / batched / batch-of-one / (step, env) inputs as numpy and torch; value maps and row-wise consistency",
                          payload={"mode": "search"}))
     P.assumptions += ["dimension values are positive integers; ranks 0..3 enumerated, dimension values symbolic"]
     P.uncovered += ["element maps of Dict/Tuple observations (member-wise recursion) and of MultiBinary - native adapter, bounded",
                     "greedy action / value independence of batch composition (needs row-wise nn forward)",
-                    "multi-agent assembly/disassembly of homogeneous agents"]
+                    "disassembly of homogeneous agents' outputs back per agent (native)"]
     return P
